@@ -12,6 +12,27 @@ import universe as U
 from w_checker import classify, make_module
 
 
+# the TypeVars typing itself exports are rendered as the very objects of the typing module (descriptor key 'std'; the key of
+# universe's TypeVar table is (id, constraints, bound, contra): seeded here, so render / reify treat them like any TypeVar)
+STD_TVS = {'AnyStr': {'id': 20, 'constraints': ['bytes', 'str'], 'bound': None, 'contra': False},
+           'T': {'id': 21, 'constraints': [], 'bound': None, 'contra': False},
+           'KT': {'id': 22, 'constraints': [], 'bound': None, 'contra': False},
+           'T_contra': {'id': 23, 'constraints': [], 'bound': None, 'contra': True}}
+for _n, _d in STD_TVS.items():
+    import typing as _typing
+    U._tv_cache[(_d['id'], tuple(map(str, _d['constraints'])), str(_d['bound']), _d['contra'])] = (getattr(_typing, _n), _d)
+
+DFLT = ['dflt']       # an argument of a step: the parameter is left out of the call, Python binds its default
+
+
+def fill_defaults(sg, args):
+    """-> (the arguments with every left-out one replaced by the default of the signature, the indices left out)"""
+    d = sg.get('defaults') or []
+    omitted = [j for j, a in enumerate(args) if a == DFLT and j < len(d) and d[j] is not None]
+    # (a left-out argument of a step that addresses nothing - outcome 9 - is shown as None)
+    return [d[j] if j in omitted else (['none'] if a == DFLT else a) for j, a in enumerate(args)], omitted
+
+
 class Ret:
     """what a generated body returns (`return RET[0]`).  With a plan, the body first RE-ENTERS the same
     decorated function (the nested calls of the plan, their exceptions swallowed) and then returns."""
@@ -37,6 +58,9 @@ def sig_src(name, sg, tag, env, method, deco=''):
     for j, a in enumerate(sg['params']):
         env[f'{tag}_p{j}'] = U.render_ann(a)
         ps.append(f'p{j}: {tag}_p{j}')
+        if j < len(sg.get('defaults') or []) and sg['defaults'][j] is not None:
+            env[f'{tag}_d{j}'] = U.render_val(sg['defaults'][j])       # ONE object, the default of every call
+            ps[-1] += f' = {tag}_d{j}'
     env[f'{tag}_r'] = U.render_ann(sg['ret'])
     # variadic parameters (pedantic recognises `*args` by that very text in the source)
     if sg.get('varargs') is not None:
@@ -102,13 +126,14 @@ def reify_sig(env, tag, sg):
     return r
 
 
-def invoke(mod, fn, sg, real, extra, surplus):
+def invoke(mod, fn, sg, real, extra, surplus, omitted=()):
     """named parameters by keyword - unless the function collects positional values: then Python wants the named
-    ones positionally, before the collected ones; surplus keyword values as k0=, k1=, ..."""
+    ones positionally, before the collected ones; surplus keyword values as k0=, k1=, ...; the parameters in `omitted`
+    are left out (they have a default)"""
     kw = {f'k{j}': v for j, v in enumerate(surplus)}
     if sg.get('varargs') is not None:
         return mod.callv(fn, list(real) + list(extra), kw)
-    kw.update({f'p{j}': v for j, v in enumerate(real)})
+    kw.update({f'p{j}': v for j, v in enumerate(real) if j not in omitted})
     return mod.call(fn, kw)
 
 
@@ -159,6 +184,8 @@ def run_case(c):
             r_steps.append(['new', slot, k, r_xs, rv])
         elif s[0] == 'call':
             _, slot, m, args, ret = s[:5]
+            args, omitted = fill_defaults(world['classes'][slots[slot][0]]['methods'][m] if slot in slots and
+                                          m < len(world['classes'][slots[slot][0]]['methods']) else {}, args)
             real, rv = vals(args)
             (rreal,), (rret,) = vals([ret])
             ereal, erv = vals(s[5] if len(s) > 5 else [])
@@ -169,7 +196,7 @@ def run_case(c):
             mod.RET[0] = rreal
             fn = getattr(slots[slot][1], f'm{m}')
             msg_sg = world['classes'][slots[slot][0]]['methods'][m]
-            code, _, msg = attempt(lambda: invoke(mod, fn, msg_sg, real, ereal, kreal))
+            code, _, msg = attempt(lambda: invoke(mod, fn, msg_sg, real, ereal, kreal, omitted))
             out.append(code); excs.append(msg)
         elif s[0] == 'fun' and len(s) > 4 and s[4]:
             # re-entrancy: the body of f calls f again (depth-first plan); flat result: inner calls first, the outer call last
@@ -198,6 +225,7 @@ def run_case(c):
                 r_steps.append(rstep); out.append(plan['out']); excs.append(plan['exc'])
         elif s[0] == 'fun':
             _, f, args, ret = s[:4]
+            args, omitted = fill_defaults(world['funs'][f] if f < len(world['funs']) else {}, args)
             real, rv = vals(args)
             (rreal,), (rret,) = vals([ret])
             ereal, erv = vals(s[5] if len(s) > 5 else [])
@@ -206,7 +234,7 @@ def run_case(c):
             if f >= len(world['funs']):
                 out.append(9); excs.append(None); continue
             mod.RET[0] = rreal
-            code, _, msg = attempt(lambda: invoke(mod, getattr(mod, f'f{f}'), world['funs'][f], real, ereal, kreal))
+            code, _, msg = attempt(lambda: invoke(mod, getattr(mod, f'f{f}'), world['funs'][f], real, ereal, kreal, omitted))
             out.append(code); excs.append(msg)
         else:
             raise ValueError(s)
